@@ -458,6 +458,10 @@ func (p *gRepeat0) Match(src []*types.Token, ctx *Context) (n int, result any, e
 				return
 			}
 		}
+		if n1 == 0 { // no progress: another iteration would match the same way forever
+			result = rets
+			return
+		}
 		rets = append(rets, ret1)
 		n += n1
 		src = src[n1:]
@@ -500,6 +504,10 @@ func (p *gRepeat1) Match(src []*types.Token, ctx *Context) (n int, result any, e
 				result = rets
 				return
 			}
+		}
+		if n1 == 0 { // no progress: another iteration would match the same way forever
+			result = rets
+			return
 		}
 		rets = append(rets, ret1)
 		n += n1
